@@ -68,7 +68,11 @@ pub(crate) fn complete(src: &str, path: &Path, offset: usize) -> Vec<CompletionI
         match &expr.expr_ {
             Expression_::DotAccess(recv, meth_sym) => {
                 let recv_id = recv.id;
-                let recv_ty = &summary.id_to_ty[&recv_id];
+                let Some(recv_ty) = summary.id_to_ty.get(&recv_id) else {
+                    // The checker did not visit this receiver,
+                    // e.g. it skipped a trusted prelude body.
+                    continue;
+                };
 
                 let prefix = if meth_sym.name.is_placeholder() {
                     ""
@@ -87,7 +91,11 @@ pub(crate) fn complete(src: &str, path: &Path, offset: usize) -> Vec<CompletionI
                 }
 
                 let recv_id = recv.id;
-                let recv_ty = &summary.id_to_ty[&recv_id];
+                let Some(recv_ty) = summary.id_to_ty.get(&recv_id) else {
+                    // The checker did not visit this receiver,
+                    // e.g. it skipped a trusted prelude body.
+                    continue;
+                };
 
                 let prefix = if meth_sym.name.is_placeholder() {
                     ""
